@@ -39,6 +39,26 @@ def validate(prop_env, prop, trace, outcome, verdict=True, spec="WalletTrace"):
                            "reproduce": "ordv wallet-runes (tag %s)" % case.get("tag")})
 
 
+def prove_gate():
+    """TLAPS: Offer!GateSound (sign + broadcast => advertised trade) for PSBTs with any number of inputs."""
+    import shutil
+    import subprocess
+    d = os.path.join(WORK, "tlaps-%d" % os.getpid())
+    shutil.rmtree(d, ignore_errors=True)
+    os.makedirs(d)
+    for f in ("Offer.tla", "OfferProofs.tla"):
+        shutil.copy(os.path.join("/verif/spec", f), d)
+    r = subprocess.run(["timeout", "900", "tlapm", "--threads", "4", "OfferProofs.tla"], cwd=d, stdout=subprocess.PIPE,
+                       stderr=subprocess.STDOUT, text=True)
+    shutil.rmtree(d, ignore_errors=True)
+    import re
+    m = re.search(r"All (\d+) obligations? proved", r.stdout)
+    if not m:
+        log(r.stdout[-2000:])
+        raise ToolError("tlapm did not prove OfferProofs.tla")
+    return int(m.group(1))
+
+
 def run_offers(prop, tier, seed):
     t0 = time.time()
     outcome = Outcome(prop)
@@ -49,6 +69,7 @@ def run_offers(prop, tier, seed):
     if not res["completed"]:
         detail = res["out"][res["out"].find("Error:"):][:1500]
         outcome.violation("OfferModel: " + detail.replace("\n", " ")[:700], {"property": prop, "kind": "offer-model", "tlc": detail})
+    proved = prove_gate()
     worlds, cases = (1, 150) if tier == "quick" else (6, 300)
     trace = os.path.join(WORK, "wallet-offers-%s-%d.ndjson" % (tier, seed))
     ordv(["wallet-offers", "--seed", str(seed), "--worlds", str(worlds), "--cases", str(cases), "--out", trace], timeout=14000)
@@ -68,7 +89,7 @@ def run_offers(prop, tier, seed):
                    "presented to the real `ord wallet offer accept` (subprocess, mock node, real explorer); contents of the spent outputs are "
                    "read from the real index; distinct_nontrivial = distinct (inputs, named inscription, balance) shapes",
            "samples": [lines[0], lines[len(lines) // 2]], "states": res.get("distinct", 0), "transitions": res.get("states", 0),
-           "traces_validated_against_impl": 1, "outcome_classes": classes}
+           "traces_validated_against_impl": 1, "outcome_classes": classes, "tlaps_obligations_proved": proved}
     return outcome, cov, time.time() - t0
 
 
